@@ -5,7 +5,7 @@
    [old_classify] is the decision of the unrepaired code (type switch on the outermost value). *)
 From Coq Require Import List ZArith NArith Bool.
 Import ListNotations.
-From SygmaV Require Import Model.C07 Proofs.C07 Model.C11 Proofs.C11.
+From SygmaV Require Import Model.C07 Proofs.C07 Model.C11 Proofs.C11 Proofs.C11_Real.
 
 (* A tree that contains exactly one recognised cause - anywhere, under any nesting of joins, wraps
    and other errors - is classified as that cause. *)
@@ -306,6 +306,70 @@ Theorem C11_judge_duo_sound : forall ev a oa oc sub rest,
   (exists rest', o_runs oc = (false, sub) :: rest') /\ o_elected oc = None /\ o_final oc <> FOriginal.
 Proof. exact duo_ok_sound. Qed.
 Print Assumptions C11_judge_duo_sound.
+
+(* SESSIONS OF REAL SIGNING PROCESSES (the real ECDSA / FROST Signing objects on the fixture key shares,
+   the same object for every attempt, failing through their own code: a Broadcast of a round message
+   returns the transport's CommunicationError, a subset member is dead, the real party blames a culprit,
+   the real process returns SubsetError).  The judge is [spec_ok] for the cause the network injected,
+   plus: every subset the relayer announces as coordinator of the replacement attempt is a signing
+   subset (t+1 distinct key holders, itself among them, no culprit, everybody else having answered
+   ready), and if enough live, reachable, non-excluded holders answered ready the replacement attempt
+   it coordinates completes with a valid signature.  It accepts the model's session (for the outcome
+   "completed": that live members of a valid subset produce a signature is tss-lib's / FROST's
+   correctness, trusted) ... *)
+Theorem C11_real_ok_model : forall (key : peer -> N) tm m br holders t self unreach live retryable runs1 e bs ready2 msgs2,
+  In self holders -> wf_table m holders ->
+  (forall ps, classify e = RetryExcluding ps ->
+              bully_guarded (br self bs (exclude holders ps)) self (exclude holders ps) = true) ->
+  real_ok (mkEnv tm holders t self unreach ready2 msgs2) live retryable e (length runs1)
+    (continue key tm m br classify holders t self retryable runs1 e bs ready2 msgs2) SigValid = true.
+Proof. exact real_ok_model. Qed.
+Print Assumptions C11_real_ok_model.
+
+(* ... and means: everything [spec_ok] means; the announced subsets of the replacement attempt are
+   signing subsets in the specification's sense (C07's subset_spec, culprits excluded); and the
+   replacement attempt of enough live holders did not end without a valid signature. *)
+Theorem C11_judge_real_sound : forall ev live e nfirst o sig k ps,
+  real_ok ev live true e nfirst o sig = true ->
+  recognised_kinds e = [k] -> action_of_kind k = RetryExcluding ps -> ~ In (e_self ev) ps ->
+  spec_ok ev true e nfirst o = true
+  /\ (forall sub, In (true, sub) (skipn nfirst (o_runs o)) ->
+        subset_spec (e_holders ev) (e_t ev) ps (e_self ev) (e_ready2 ev) sub)
+  /\ (o_inits2 o <> [] ->
+      enough (e_holders ev) (e_t ev) ps (e_unreach ev) (e_self ev) (filter (fun p => memb p live) (e_ready2 ev)) = true ->
+      sig <> SigMissing).
+Proof. exact real_ok_sound. Qed.
+Print Assumptions C11_judge_real_sound.
+
+Theorem C11_judge_real_implies_spec : forall ev live retryable e nfirst o sig,
+  real_ok ev live retryable e nfirst o sig = true -> spec_ok ev retryable e nfirst o = true.
+Proof. exact real_ok_spec_ok. Qed.
+Print Assumptions C11_judge_real_implies_spec.
+
+(* Non-vacuity for the sessions of real processes: three key holders, threshold 1; relayer 0 coordinates
+   the first attempt [0; 1], holder 1 is dead (CommunicationError), holder 2 was left out and answers
+   ready: the model's session elects among everybody, announces [0; 2] and is accepted with a valid
+   signature; the same session ending with the failure (the typed cause lost on the way) is rejected,
+   and so are a replacement attempt that never starts because the left-out holder's ready message does
+   not count, one that announces a subset without the left-out holder, and one that ends without a
+   signature. *)
+Example C11_real_nonvacuous :
+  let key := fun p : peer => match p with 0 => 90 | 1 => 70 | 2 => 50 | _ => 5 end%N in
+  let tm := mkTiming 3600000 3600000 in
+  let ev := mkEnv tm [0; 1; 2]%N 1%Z 0%N [1%N] [2%N] [] in
+  let e := pool_join [pool_join [pool_join [Node (KComm 1%N) []]]] in
+  let o := continue key tm 3 (bully_coded key) classify [0; 1; 2]%N 1%Z 0%N true [(true, [0; 1]%N)] e [] [2%N] [] in
+  o = mkObs [(true, [0; 1]%N); (true, [0; 2]%N)] (Some [0; 1; 2]%N) [([0; 2]%N, [])] [] FNil [[0; 1; 2]%N]
+            [([0; 1]%N, [0; 1; 2]%N); ([0; 2]%N, [0; 1; 2]%N)]
+  /\ real_ok ev [0; 2]%N true e 1 o SigValid = true
+  /\ real_ok ev [0; 2]%N true e 1 (mkObs [(true, [0; 1]%N)] None [] [] FOther [] [([0; 1]%N, [0; 1; 2]%N)]) SigMissing = false
+  /\ real_ok ev [0; 2]%N true e 1 (mkObs [(true, [0; 1]%N)] (Some [0; 1; 2]%N) [([0; 2]%N, [])] [] FOther [[0; 1; 2]%N]
+                                         [([0; 1]%N, [0; 1; 2]%N)]) SigMissing = false
+  /\ real_ok ev [0; 2]%N true e 1 (mkObs [(true, [0; 1]%N); (true, [0%N])] (Some [0; 1; 2]%N) [([0; 2]%N, [])] [] FNil [[0; 1; 2]%N]
+                                         [([0; 1]%N, [0; 1; 2]%N); ([0%N], [0; 1; 2]%N)]) SigValid = false
+  /\ real_ok ev [0; 2]%N true e 1 o SigMissing = false
+  /\ real_ok ev [0; 2]%N true e 1 o SigNotAwaited = true.
+Proof. vm_compute. repeat split. Qed.
 
 (* The unrepaired code (kept as a statement about the explicitly named old_ definitions): whatever
    the pools return is an errors.Join value, so nothing was ever retried and a left-out relayer
